@@ -40,9 +40,11 @@
     Assumptions of the model (the correspondence harness stays inside them):
     every database transaction commits iff the operation returned nil (memory
     ahead of disk after an aborted transaction is C08/C10's subject); no
-    BIP32 child is invalid; ExtendAddresses (S3), NewScopedKeyManager,
-    InvalidateAccountCache and the imported pseudo-account as a derivation
-    source are not among the operations. *)
+    BIP32 child is invalid; ExtendAddresses (S3), NewScopedKeyManager and the
+    imported pseudo-account as a derivation source are not among the
+    operations.  Address objects a caller keeps are not part of the state: the
+    accessors on them ([OpHeldPrivKey], [OpHeldScript]) take the object's
+    fields as input. *)
 From Verif Require Import Base.Prelude.
 Local Open Scope N_scope.
 
@@ -62,7 +64,14 @@ Record facts := {
   (* keyToManaged does not queue addresses of accounts without a private key *)
   f_keyless_not_queued : bool;
   (* ChangePassphrase refuses an empty new private passphrase (as Create does) *)
-  f_change_rejects_empty : bool
+  f_change_rejects_empty : bool;
+  (* managedAddress.PrivKey tests the lock state BEFORE it looks at the object
+     (not only on the path that has to decrypt) *)
+  f_privkey_checks_first : bool;
+  (* Unlock loads the account of every derive-on-unlock entry into the account
+     cache before it decrypts the account keys (InvalidateAccountCache may have
+     dropped it) *)
+  f_unlock_preloads : bool
 }.
 
 (* The id of the empty passphrase.  Go: append(salt[:], passphrase...) returns
@@ -243,7 +252,18 @@ Inductive op :=
 | OpDeriveCache (sc acct br idx : N)         (* DeriveFromKeyPathCache *)
 | OpEncrypt (kt : ktype)
 | OpDecrypt (kt : ktype)                     (* of a valid ciphertext for that key type *)
-| OpConvert.                                 (* ConvertToWatchingOnly *)
+| OpConvert                                  (* ConvertToWatchingOnly *)
+| OpMarkUsed (sc : N) (a : akey)             (* MarkUsed(addr): evicts the address from the addrs cache *)
+| OpForEach (sc acct : N)                    (* ForEachAccountAddress: one fresh, uncached object per address row *)
+| OpInvalidate (sc acct : N)                 (* InvalidateAccountCache(acct) *)
+(* Accessors called on an address OBJECT the caller kept from an earlier
+   operation (the result of Next*Addresses, DeriveFromKeyPath, Address,
+   ForEachAccountAddress, an import), which the manager may no longer track.
+   The object's own fields are an INPUT here: [enc] = privKeyEncrypted is
+   present, [ct] = its clear-text buffer is live (the harness reads them by
+   reflection).  What the model says is what the accessor does with them. *)
+| OpHeldPrivKey (enc ct : bool)              (* PrivKey() / ExportPrivKey() on a kept *managedAddress *)
+| OpHeldScript (k : skind) (sec ct : bool).  (* Script() on a kept script address object *)
 
 (* --- Manager.lock() --- *)
 Definition lock_last (F : facts) (r : lastref) : lastref :=
@@ -391,6 +411,22 @@ Definition unlocked_keys (k : keys) (p : N) : keys :=
      k_master := true; k_cpriv := true; k_cscript := k_cscript k;
      k_salt := salt_after (k_salt k) p; k_hashed := Some (k_salt k, p) |}.
 
+(* Unlock, fact f_unlock_preloads: loadAccountInfo for the account of every
+   queued entry, while the manager is still locked *)
+Fixpoint preload (F : facts) (qs : list qent) (s : state) : option state :=
+  match qs with
+  | [] => Some s
+  | q :: qs' =>
+    match qent_acct q with
+    | None => preload F qs' s
+    | Some (sc, acct) =>
+      match load_acct F sc acct s with
+      | None => None
+      | Some (s1, _) => preload F qs' s1
+      end
+    end
+  end.
+
 Definition do_unlock (F : facts) (p : N) (s : state) : state * rc :=
   let m := sm s in
   let k := mk m in
@@ -412,14 +448,23 @@ Definition do_unlock (F : facts) (p : N) (s : state) : state * rc :=
       | None => (with_mem s (lock_mem F m), RCrypto)
       | Some g' =>
         if negb (g' =? g) then (with_mem s (lock_mem F m), RCrypto)
-        else if negb (f_unlock_skips_keyless F) && existsb (fun kv => negb (ai_has_enc (snd kv))) (m_accts m)
-        then (with_mem s (lock_mem F m), RCrypto)                          (* Decrypt(nil acctKeyEncrypted) *)
         else
-          let accts := avmap unlock_ainfo (m_accts m) in
-          if negb (forallb (qent_derivable accts) (m_queue m)) then (s, RPanic)
-          else
-            let m1 := fold_left apply_qent (m_queue m) (mem_accts m accts) in
-            (with_mem s (mem_keys (mem_queue m1 []) (unlocked_keys k p)), ROk)
+          match (if f_unlock_preloads F then preload F (m_queue m) s else Some s) with
+          | None => (with_mem s (lock_mem F m), RNotFound)
+          | Some s0 =>
+            let m := sm s0 in
+            if negb (f_unlock_skips_keyless F) && existsb (fun kv => negb (ai_has_enc (snd kv))) (m_accts m)
+            then (with_mem s0 (lock_mem F m), RCrypto)                      (* Decrypt(nil acctKeyEncrypted) *)
+            else
+              let accts := avmap unlock_ainfo (m_accts m) in
+              (* an entry whose account is not cached is loaded HERE, while the
+                 manager is still locked, hence without private key: the
+                 ignored ECPrivKey error leaves a nil key that is dereferenced *)
+              if negb (forallb (qent_derivable accts) (m_queue m)) then (s, RPanic)
+              else
+                let m1 := fold_left apply_qent (m_queue m) (mem_accts m accts) in
+                (with_mem s0 (mem_keys (mem_queue m1 []) (unlocked_keys k p)), ROk)
+          end
       end
     end.
 
@@ -567,9 +612,10 @@ Definition do_next_addr (F : facts) (sc acct : N) (internal : bool) (s : state) 
         let d := sd s1 in
         let d' := disk_addrs (disk_accts d (aupsert pair_eqb (sc, acct) (bump_row internal row) (d_accts d)))
                              (d_addrs d ++ [((sc, a), AChain)]) in
-        (* the read-back loadAndCacheAddress -> chainAddressRowToManaged -> keyToManaged *)
+        (* the read-back loadAddress -> chainAddressRowToManaged -> keyToManaged: an
+           object that is never cached *)
         let private_rb := negb (k_locked k) && negb (k_watch k) && ai_priv ai in
-        let q1 := queue_if_public F (ai_has_enc ai) private_rb [QAddr sc a] in
+        let q1 := queue_if_public F (ai_has_enc ai) private_rb [QDetached sc acct] in
         (* onCommit *)
         let q2 := if k_locked k && negb wo then [QAddr sc a] else [] in
         let m := sm s1 in
@@ -609,6 +655,23 @@ Definition do_import_script (sc n : N) (k : skind) (secret : bool) (s : state) :
     (set_addr s1 sc (KScr n) (OScript k secret true), ROk).
 
 (* --- getters --- *)
+
+(* managedAddress.PrivKey + unlock: which tests come first.  ROk: the key is
+   returned (and the object's clear text is live afterwards). *)
+Definition key_access (F : facts) (k : keys) (enc ct : bool) : rc :=
+  if k_watch k then RWatchOnly
+  else if f_privkey_checks_first F then
+    (if k_locked k then RLocked else if negb enc then RWatchOnly else ROk)
+  else
+    (* the lock test sits inside `if len(a.privKeyCT) == 0 { ... }` *)
+    (if ct then ROk else if k_locked k then RLocked else if negb enc then RWatchOnly else ROk).
+
+(* scriptAddress.Script / witnessScriptAddress.Script *)
+Definition script_access (k : keys) (kd : skind) (sec : bool) : rc :=
+  let gate := match kd with KP2SH => true | _ => sec end in
+  if gate && k_watch k then RWatchOnly
+  else if gate && k_locked k then RLocked
+  else ROk.
 Definition do_load_addr (F : facts) (sc : N) (a : akey) (s : state) : state * rc :=
   match load_addr F sc a s with
   | None => (s, RNotFound)
@@ -619,10 +682,10 @@ Definition do_priv_key (F : facts) (sc : N) (a : akey) (s : state) : state * rc 
   match load_addr F sc a s with
   | None => (s, RNotFound)
   | Some (s1, OKey imp enc ct) =>
-    if watch s1 then (s1, RWatchOnly)
-    else if locked s1 then (s1, RLocked)
-    else if negb enc then (s1, RWatchOnly)
-    else (set_addr s1 sc a (OKey imp enc true), ROk)
+    match key_access F (mk (sm s1)) enc ct with
+    | ROk => (set_addr s1 sc a (OKey imp enc true), ROk)
+    | r => (s1, r)
+    end
   | Some (s1, OScript _ _ _) => (s1, ROther)
   end.
 
@@ -630,10 +693,10 @@ Definition do_script (F : facts) (sc : N) (a : akey) (s : state) : state * rc :=
   match load_addr F sc a s with
   | None => (s, RNotFound)
   | Some (s1, OScript k sec ct) =>
-    let gate := match k with KP2SH => true | _ => sec end in
-    if gate && watch s1 then (s1, RWatchOnly)
-    else if gate && locked s1 then (s1, RLocked)
-    else (set_addr s1 sc a (OScript k sec true), ROk)
+    match script_access (mk (sm s1)) k sec with
+    | ROk => (set_addr s1 sc a (OScript k sec true), ROk)
+    | r => (s1, r)
+    end
   | Some (s1, OKey _ _ _) => (s1, ROther)
   end.
 
@@ -645,12 +708,17 @@ Definition do_derive (F : facts) (sc acct br idx : N) (s : state) : state * rc :
     let private := negb (k_locked k) && negb (k_watch k) && ai_priv ai in
     let q := queue_if_public F (ai_has_enc ai) private [QDetached sc acct] in
     let s2 := with_mem s1 (mem_queue (sm s1) (m_queue (sm s1) ++ q)) in
-    (* PrivKey() on the returned object *)
-    if k_watch k then (s2, RWatchOnly)
-    else if k_locked k then (s2, RLocked)
-    else if negb private then (s2, RWatchOnly)
-    else (s2, ROk)
+    (* PrivKey() on the returned object (fresh: encrypted key and clear text iff private) *)
+    (s2, key_access F k private private)
   end.
+
+(* accessors on an object the caller kept; the manager's state is not touched
+   (exact for objects the manager no longer tracks, and in every locked or
+   watching-only state: the harness calls them only there) *)
+Definition do_held_priv_key (F : facts) (enc ct : bool) (s : state) : state * rc :=
+  (s, key_access F (mk (sm s)) enc ct).
+Definition do_held_script (k : skind) (sec ct : bool) (s : state) : state * rc :=
+  (s, script_access (mk (sm s)) k sec).
 
 Definition do_derive_cache (F : facts) (sc acct br idx : N) (s : state) : state * rc :=
   let m := sm s in
@@ -673,6 +741,92 @@ Definition do_crypt (kt : ktype) (s : state) : state * rc :=
   | CKPub => (s, ROk)
   | _ => if locked s || watch s then (s, RLocked) else (s, ROk)
   end.
+
+(* --- MarkUsed: delete(s.addrs, addr) --- *)
+Definition unalias_ref (a : akey) (ct : bool) (r : lastref) : lastref :=
+  match r with
+  | LAlias b => if akey_eqb b a then LOwn ct else LAlias b
+  | r => r
+  end.
+
+Definition unalias (sc : N) (a : akey) (ct : bool) (kv : (N * N) * ainfo) : (N * N) * ainfo :=
+  let '(k, ai) := kv in
+  if fst k =? sc
+  then (k, {| ai_has_enc := ai_has_enc ai; ai_priv := ai_priv ai;
+              ai_last_ext := unalias_ref a ct (ai_last_ext ai);
+              ai_last_int := unalias_ref a ct (ai_last_int ai) |})
+  else kv.
+
+Definition is_alias (a : akey) (r : lastref) : bool :=
+  match r with LAlias b => akey_eqb b a | _ => false end.
+
+(* a queued object that leaves the cache is from then on either an account's
+   last address object or held by nobody *)
+Definition requeue (accts : list ((N * N) * ainfo)) (sc : N) (a : akey) (q : qent) : qent :=
+  match q with
+  | QAddr sc' a' =>
+    if (sc' =? sc) && akey_eqb a' a then
+      match a with
+      | KChain acct br _ =>
+        match alookup pair_eqb (sc, acct) accts with
+        | Some ai =>
+          if (br =? 0) && is_alias a (ai_last_ext ai) then QLast sc acct false
+          else if (br =? 1) && is_alias a (ai_last_int ai) then QLast sc acct true
+          else QDetached sc acct
+        | None => QDetached sc acct
+        end
+      | _ => q
+      end
+    else q
+  | _ => q
+  end.
+
+Definition do_mark_used (sc : N) (a : akey) (s : state) : state * rc :=
+  let m := sm s in
+  match alookup addr_eqb (sc, a) (m_addrs m) with
+  | None => (s, ROk)
+  | Some o =>
+    let ct := match o with OKey _ _ ct => ct | OScript _ _ ct => ct end in
+    (with_mem s {| mk := mk m;
+                   m_accts := map (unalias sc a ct) (m_accts m);
+                   m_addrs := filter (fun kv => negb (addr_eqb (fst kv) (sc, a))) (m_addrs m);
+                   m_cache := m_cache m;
+                   m_queue := map (requeue (m_accts m) sc a) (m_queue m) |}, ROk)
+  end.
+
+(* --- ForEachAccountAddress: rowInterfaceToManaged for every address row --- *)
+Definition is_chain_row (sc acct : N) (kv : (N * akey) * arow) : bool :=
+  match kv with
+  | ((sc', KChain acct' _ _), AChain) => (sc' =? sc) && (acct' =? acct)
+  | _ => false
+  end.
+
+Definition do_foreach (F : facts) (sc acct : N) (s : state) : state * rc :=
+  let rows := filter (is_chain_row sc acct) (d_addrs (sd s)) in
+  match rows with
+  | [] => (s, ROk)             (* nothing, or imported keys / scripts: objects without derivation *)
+  | _ =>
+    match load_acct F sc acct s with
+    | None => (s, RNotFound)
+    | Some (s1, ai) =>
+      let k := mk (sm s1) in
+      let private := negb (k_locked k) && negb (k_watch k) && ai_priv ai in
+      let q := queue_if_public F (ai_has_enc ai) private (repeat (QDetached sc acct) (length rows)) in
+      (with_mem s1 (mem_queue (sm s1) (m_queue (sm s1) ++ q)), ROk)
+    end
+  end.
+
+(* --- InvalidateAccountCache: delete(s.acctInfo, account) --- *)
+Definition orphan (sc acct : N) (q : qent) : qent :=
+  match q with
+  | QLast sc' acct' _ => if (sc' =? sc) && (acct' =? acct) then QDetached sc acct else q
+  | _ => q
+  end.
+
+Definition do_invalidate (sc acct : N) (s : state) : state * rc :=
+  let m := sm s in
+  (with_mem s (mem_queue (mem_accts m (filter (fun kv => negb (pair_eqb (fst kv) (sc, acct))) (m_accts m)))
+                         (map (orphan sc acct) (m_queue m))), ROk).
 
 Definition do_lock (F : facts) (s : state) : state * rc :=
   if watch s then (s, RWatchOnly)
@@ -700,6 +854,11 @@ Definition step (F : facts) (s : state) (o : op) : state * rc :=
   | OpEncrypt kt => do_crypt kt s
   | OpDecrypt kt => do_crypt kt s
   | OpConvert => do_convert F s
+  | OpMarkUsed sc a => do_mark_used sc a s
+  | OpForEach sc acct => do_foreach F sc acct s
+  | OpInvalidate sc acct => do_invalidate sc acct s
+  | OpHeldPrivKey enc ct => do_held_priv_key F enc ct s
+  | OpHeldScript k sec ct => do_held_script k sec ct s
   end.
 
 Fixpoint run (F : facts) (s : state) (ops : list op) : state * list rc :=
